@@ -1071,6 +1071,9 @@ VSdetach(int32 vkey /* IN: vdata key? */)
                    access element attached would make the file impossible to close */
                 HERROR(DFE_WRITEERROR);
                 ret_value = FAIL;
+                /* a header descriptor without data would make Vinitialize fail on this file from now on */
+                if (Hlength(vs->f, VSDESCTAG, vs->oref) == FAIL)
+                    Hdeldd(vs->f, VSDESCTAG, vs->oref);
             }
             else {
                 vs->marked   = 0;
